@@ -3,6 +3,7 @@ package lexh
 import (
 	"bytes"
 	"regexp"
+	"unicode/utf8"
 )
 
 // Shrink reduces src while failing(src) stays true, within a budget of maxProbes calls
@@ -160,9 +161,41 @@ func Canonical(cur []byte, ok func([]byte) bool) []byte {
 			}
 		}
 	}
+	// multi-byte characters → 'é', '世' or '😀' (the first that keeps failing; same width last)
+	isCanon := func(r rune) bool { return r == 'é' || r == '世' || r == '😀' }
+	for i := 0; i < len(cur); {
+		r, size := utf8.DecodeRune(cur[i:])
+		if r != utf8.RuneError && size > 1 && !isCanon(r) {
+			for _, rep := range []string{"é", "世", "😀"} {
+				if len(rep) > size {
+					break
+				}
+				cand := append(append(append([]byte(nil), cur[:i]...), rep...), cur[i+size:]...)
+				if ok(cand) {
+					cur = cand
+					size = len(rep)
+					break
+				}
+			}
+		}
+		i += size
+	}
+	// control bytes and invalid bytes → 'a'
+	for i := 0; i < len(cur); {
+		r, size := utf8.DecodeRune(cur[i:])
+		c := cur[i]
+		if (r == utf8.RuneError && size == 1) || c < 0x20 && c != '\n' {
+			cur[i] = 'a'
+			if !ok(cur) {
+				cur[i] = c
+			}
+		}
+		i += size
+	}
+	// punctuation and digits that do not matter → 'a'
 	for i := range cur {
 		c := cur[i]
-		if c >= 0x80 || c < 0x20 && c != '\n' {
+		if c < 0x80 && c > 0x20 && !(c >= 'a' && c <= 'z') && !(c >= 'A' && c <= 'Z') {
 			cur[i] = 'a'
 			if !ok(cur) {
 				cur[i] = c
